@@ -483,8 +483,30 @@ fn shadow_name_subjects(tier: Tier, out: &mut Vec<Subj>) {
     }
 }
 
+/// ranges at the far ends of the wide and pointer-sized types (a generator that draws through a narrower or
+/// differently signed type cannot reach them)
+fn far_end_subjects(_tier: Tier, out: &mut Vec<Subj>) {
+    for t in [IntTy::Usize, IntTy::Isize, IntTy::U64, IntTy::I64, IntTy::U128, IntTy::I128] {
+        let mut shapes: Vec<Vec<Vd>> = vec![
+            vec![Vd::Greater(Bound::lit(sub_v(&t.max(), 16)))],
+            vec![Vd::GreaterOrEqual(Bound { v: sub_v(&t.max(), 300), form: Form::Const }), Vd::LessOrEqual(Bound { v: t.max(), form: Form::TyExtreme })],
+        ];
+        if t.signed() {
+            shapes.push(vec![Vd::Less(Bound::lit(add_v(&t.min(), 16)))]);
+            shapes.push(vec![Vd::GreaterOrEqual(Bound { v: t.min(), form: Form::TyExtreme }), Vd::LessOrEqual(Bound { v: add_v(&t.min(), 300), form: Form::Const })]);
+        }
+        for vs in shapes {
+            let mut d = Decl::new("X", Inner::Int(t));
+            d.validation = Validation::Std(vs);
+            d.derives = vec![Tr::Debug, Tr::Clone, Tr::Copy, Tr::PartialEq, Tr::Eq, Tr::PartialOrd, Tr::Ord, Tr::Arbitrary, Tr::TryFrom, Tr::Into, Tr::Display];
+            out.push(Subj { decl: d, tag: format!("int/{}/arb-far-end", t.name()), serde_full: false });
+        }
+    }
+}
+
 pub fn arbitrary_int_subjects(tier: Tier, out: &mut Vec<Subj>) {
     shadow_name_subjects(tier, out);
+    far_end_subjects(tier, out);
     let tys: Vec<IntTy> = match tier {
         Tier::Quick => vec![IntTy::U8, IntTy::I16, IntTy::I32, IntTy::U64, IntTy::Usize, IntTy::Isize],
         Tier::Thorough => ALL_INT.to_vec(),
@@ -499,6 +521,8 @@ pub fn arbitrary_int_subjects(tier: Tier, out: &mut Vec<Subj>) {
             (Some(VK::G), v(16), Some(VK::L), v(18)),
             (Some(VK::GE), v(16), Some(VK::L), v(18)),
             (Some(VK::G), v(0), Some(VK::LE), v(32)),
+            (Some(VK::G), v(16), Some(VK::LE), v(17)),
+            (Some(VK::GE), v(16), Some(VK::L), v(17)),
             (None, v(0), Some(VK::L), v(16)),
             (None, v(0), Some(VK::LE), v(16)),
             (Some(VK::G), v(100), None, v(0)),
@@ -1048,6 +1072,10 @@ pub fn any_subjects(_tier: Tier, out: &mut Vec<Subj>) {
         d.sans = sans;
         d.validation = val;
         d.derives = max_derives(&d, n % 2 == 0);
+        if n % 2 == 1 {
+            // inner PartialOrd and Ord disagree (ulib::FBox): both derived on the newtype
+            d.derives.extend([Tr::Eq, Tr::Ord]);
+        }
         out.push(Subj { decl: d, tag: "any/FBox".into(), serde_full: false });
         n += 1;
     }
@@ -1131,6 +1159,25 @@ pub fn default_expr_subjects(_tier: Tier, out: &mut Vec<Subj>) {
         (Inner::Int(IntTy::I8), "-(100 + 27)", Val::I(-127), Validation::Std(vec![Vd::Less(Bound::lit(Val::I(-126)))])),
         (Inner::Int(IntTy::I64), "1 << 40 | 1", Val::I((1i128 << 40) | 1), Validation::None),
     ];
+    // a VALID default under a non-idempotent sanitizer (the sanitizer must run exactly once on it)
+    for (k, (inner, san, val, dv)) in [
+        (Inner::Int(IntTy::I32), San::With(UFn::WrapAdd1, Spell::Path), Validation::Std(vec![Vd::Less(Bound::lit(Val::I(100)))]), Val::I(5)),
+        (Inner::Int(IntTy::U8), San::With(UFn::WrapAdd1, Spell::Closure), Validation::Std(vec![Vd::LessOrEqual(Bound::lit(Val::U(6)))]), Val::U(5)),
+        (Inner::Str, San::With(UFn::Dup, Spell::Path), Validation::Std(vec![Vd::LenCharMax(Bound::lit(Val::U(4)))]), Val::s("ab")),
+        (Inner::Str, San::With(UFn::Dup, Spell::Closure), Validation::Std(vec![Vd::NotEmpty, Vd::LenCharMax(Bound::lit(Val::U(9)))]), Val::s("ab")),
+        (Inner::Int(IntTy::I64), San::With(UFn::WrapAdd1, Spell::Path), Validation::Custom(UFn::CheckInt, Spell::Path), Val::I(49)),
+    ]
+    .into_iter()
+    .enumerate()
+    {
+        let mut d = Decl::new("X", inner);
+        d.sans = vec![san];
+        d.validation = val;
+        d.default = Some(dv);
+        d.derives = max_derives(&d, false);
+        d.derives.retain(|t| !matches!(t, Tr::Arbitrary));
+        out.push(Subj { decl: d, tag: "default/non-idempotent-sanitizer".into(), serde_full: k == 0 });
+    }
     for (i, (inner, src, v, val)) in shapes.into_iter().enumerate() {
         let mut d = Decl::new("X", inner);
         d.validation = val;
